@@ -200,12 +200,18 @@ impl Thread {
         thread.insert("callstack".to_owned(), serde_json::Value::Array(cs_array));
         thread.insert("threadIndex".to_owned(), json!(self.thread_index));
 
-        if !self.previous_pointer.is_null() {
+        // A pointer just past the end of its container (left behind by a host
+        // jump to such an index) has no object to resolve to: its own path
+        // names the same place and reads back as the same pointer.
+        let previous_path = match self.previous_pointer.resolve() {
+            Some(obj) => Some(Object::get_path(obj.as_ref())),
+            None => self.previous_pointer.get_path(),
+        };
+
+        if let Some(previous_path) = previous_path {
             thread.insert(
                 "previousContentObject".to_owned(),
-                json!(
-                    Object::get_path(self.previous_pointer.resolve().unwrap().as_ref()).to_string()
-                ),
+                json!(previous_path.to_string()),
             );
         }
 
